@@ -324,13 +324,27 @@ Reach(T) == IF T.root = E THEN {} ELSE ReachN(T, {T.root}, Len(T.nd))
 \* number of (parent, side) links inside S that point to slot i
 InDeg(T, S, i) == Cardinality({j \in S : T.nd[j + 1].l = i}) + Cardinality({j \in S : T.nd[j + 1].r = i})
 
+\* A tree: every link is answered by the child's parent link.  That makes in-links unique (a slot
+\* has one parent link), so no slot is shared and no cycle can be entered from the root, whose own
+\* parent link is E.  (ShapeByInDegree states the same with explicit in-degrees; MCOrd checks that
+\* the two agree on every reachable state, the selftest that both reject corrupted snapshots.)
 Shape(T) ==
   /\ RangeOK(T)
   /\ T.root # NIL
   /\ LET S == Reach(T) IN
      /\ NIL \notin S                                        \* the sentinel is linked nowhere
+     /\ (T.root # E => T.nd[T.root + 1].p = E)
+     /\ \A i \in S : /\ (T.nd[i + 1].l # E => T.nd[T.nd[i + 1].l + 1].p = i)
+                     /\ (T.nd[i + 1].r # E => T.nd[T.nd[i + 1].r + 1].p = i)
+                     /\ (T.nd[i + 1].l = T.nd[i + 1].r => T.nd[i + 1].l = E)
+
+ShapeByInDegree(T) ==
+  /\ RangeOK(T)
+  /\ T.root # NIL
+  /\ LET S == Reach(T) IN
+     /\ NIL \notin S
      /\ (T.root # E => T.nd[T.root + 1].p = E /\ InDeg(T, S, T.root) = 0)
-     /\ \A i \in S \ {T.root} : InDeg(T, S, i) = 1           \* a tree: no sharing, no cycle
+     /\ \A i \in S \ {T.root} : InDeg(T, S, i) = 1
      /\ \A i \in S : /\ (T.nd[i + 1].l # E => T.nd[T.nd[i + 1].l + 1].p = i)
                      /\ (T.nd[i + 1].r # E => T.nd[T.nd[i + 1].r + 1].p = i)
 
